@@ -2,7 +2,6 @@ package vuego
 
 import (
 	"fmt"
-	"html"
 	"io"
 	"strings"
 	"sync"
@@ -22,9 +21,9 @@ func containsInterpolation(input string) bool {
 	return open == close && open > 0
 }
 
-// interpolateToWriter writes interpolated values to w, escaping for HTML safety.
+// interpolateToWriter writes the input with every {{ expr }} replaced by the value's string form.
 // This is the core implementation that does not allocate a string result.
-// For script and style tags, values are not HTML-escaped.
+// Values are not escaped here: the result is DOM text or an attribute value, which the serialiser escapes.
 func (v *Vue) interpolateToWriter(ctx VueContext, w io.Writer, input string) error {
 	if !strings.Contains(input, "{{") {
 		_, err := io.WriteString(w, input)
@@ -90,26 +89,9 @@ func (v *Vue) interpolateToWriter(ctx VueContext, w io.Writer, input string) err
 		}
 
 		if val != nil {
-			// Escape value for HTML output (unless in a script/style tag)
-			valStr := fmt.Sprint(val)
-			parentTag := ctx.CurrentTag()
-			// Skip escaping inside script and style tags, since they contain code/CSS, not HTML
-			if parentTag == "script" || parentTag == "style" {
-				if _, err := io.WriteString(w, valStr); err != nil {
-					return err
-				}
-			} else {
-				// Skip escaping if the string doesn't contain special characters
-				// (avoids allocation in html.EscapeString for most cases)
-				if !helpers.NeedsHTMLEscape(valStr) {
-					if _, err := io.WriteString(w, valStr); err != nil {
-						return err
-					}
-				} else {
-					if _, err := io.WriteString(w, html.EscapeString(valStr)); err != nil {
-						return err
-					}
-				}
+			// Values are written as plain text; the serialiser escapes text nodes and attribute values.
+			if _, err := io.WriteString(w, fmt.Sprint(val)); err != nil {
+				return err
 			}
 		}
 
@@ -124,9 +106,8 @@ func (v *Vue) interpolateToWriter(ctx VueContext, w io.Writer, input string) err
 	return nil
 }
 
-// interpolate escapes interpolated values for HTML safety.
+// interpolate replaces every {{ expr }} in input by the value's string form.
 // Uses a buffer pool to minimize allocations.
-// For script and style tags, values are not HTML-escaped.
 func (v *Vue) interpolate(ctx VueContext, input string) (string, error) {
 	buf := bufferPool.Get().(*strings.Builder)
 	defer func() {
